@@ -168,6 +168,8 @@ def qr(t, mode='reduced'):
     if m == 0 or n == 0:
         unsupported('qr of an empty matrix')
     M = t.a
+    from . import autograd
+    tracked = autograd.ENABLED and (t.requires_grad or t.grad_fn is not None)
     Q = _obj((m, k))
     R = _obj((k, n))
     qs = []
@@ -221,6 +223,11 @@ def qr(t, mode='reduced'):
                 if not done:
                     unsupported('rank-deficient qr input outside the model')
                 continue
+            if tracked:
+                # torch's QR backward is singular where a Gram-Schmidt pivot vanishes: on a tracked input this point is part of the claim
+                z_ = (n2 == 0)
+                if z_:
+                    raise RuntimeError('symtorch: linalg.qr backward is undefined for a rank-deficient tracked input (gradients would be non-finite)')
             rho = A.sqrt(n2, assume_pos=ASSUME_FULL_RANK)
             if _is0(rho):
                 unsupported('numerically dependent column in qr input (degenerate branch)')
@@ -249,7 +256,7 @@ def qr(t, mode='reduced'):
         for i in range(m):
             Q[i, c] = q[i]
     STATS['qr_gs'] += 1
-    return st.Tensor(Q, t.dtype), st.Tensor(R, t.dtype)
+    return st._mk(Q, t.dtype, (t,)), st._mk(R, t.dtype, (t,))
 
 
 def solve(Amat, b):
